@@ -4,6 +4,7 @@
 package main
 
 import (
+	"crypto/tls"
 	"fmt"
 	"net"
 	"strings"
@@ -169,12 +170,28 @@ func main() {
 			if c.Proto == "no-alpn" {
 				alpn = nil // HTTP/1.1 client whose ClientHello carries no ALPN extension
 			}
-			s, err := rig.Dial(net.JoinHostPort(c.Target, port(px)), alpn, local, nil)
+			var tweak func(*tls.Config)
+			if i%5 == 3 { // a hello whose JA3 cannot be computed (253-byte server name, known finding D9): an injector fails for every request
+				tweak = func(cfg *tls.Config) { cfg.ServerName = strings.Repeat("b", 253) }
+				run.Add("connections_with_failing_fingerprint_injector", 1)
+			}
+			s, err := rig.Dial(net.JoinHostPort(c.Target, port(px)), alpn, local, tweak)
 			if err != nil {
 				run.Add("dial_failed", 1)
 				return
 			}
 			defer s.Close()
+			if s.Proto == "h2" && i%2 == 0 {
+				// use up the server's per-connection cache of canonical header names first (multi-step history)
+				var filler [][2]string
+				for k := 0; k < 40; k++ {
+					filler = append(filler, [2]string{fmt.Sprintf("x-filler-%d-%d-abcdefghij", i, k), "v"})
+				}
+				filler = append(filler, [2]string{strings.ToLower(rig.TagHeader), tag + "-filler"})
+				if _, err := s.Do("GET", "/fwdfiller", c.Host, filler, nil, 20*time.Second); err == nil {
+					run.Add("h2_connections_with_header_name_cache_filled", 1)
+				}
+			}
 			// two requests per connection: keep-alive / second stream must be just as truthful
 			for k := 0; k < 2; k++ {
 				t := tag
